@@ -1134,6 +1134,15 @@ class OFConnection (object):
         continue
 
       message_length = message[2] << 8 | message[3]
+      if message_length < 8:
+        # Can't be a real message, and we can't reliably skip it
+        self.log.error('Bad OpenFlow message length %s', message_length)
+        err = ofp_error(type=OFPET_BAD_REQUEST, code=OFPBRC_BAD_LEN)
+        err.xid = self._extract_message_xid(message)
+        err.data = message[:8]
+        self.send(err)
+        self.close()
+        break
       if message_length > len(message):
         break
 
@@ -1148,7 +1157,11 @@ class OFConnection (object):
         io_worker.consume_receive_buf(message_length)
         continue
 
-      new_offset, msg_obj = self.unpackers[ofp_type](message, 0)
+      try:
+        new_offset, msg_obj = self.unpackers[ofp_type](message, 0)
+      except Exception:
+        # Malformed body (truncated, inconsistent inner lengths, ...)
+        new_offset, msg_obj = None, None
       if new_offset != message_length:
         info = (msg_obj, message_length, new_offset)
         r = self._error_handler(self.ERR_BAD_LENGTH, info)
